@@ -189,6 +189,17 @@ def run_scenario(job, sc, node_dir):
 
         _tempfile.tempdir = None
 
+    # the process-wide PRNG starts from OS entropy in a real run; here from the node's configuration (reference and twin alike)
+    import random as _random
+
+    _random.seed("node:%s:%s:%s" % (os.environ.get("PYTHONHASHSEED"), cfg["pool"]["seed"], cfg["clock"]["seed"]))
+    try:
+        import numpy as _np
+
+        _np.random.seed(abs(hash((os.environ.get("PYTHONHASHSEED"), cfg["pool"]["seed"]))) % (2**32))
+    except Exception:
+        pass
+
     import logging
     import whatshap.__main__ as wm
 
